@@ -39,11 +39,14 @@ macro_rules! pos_after_law {
             assert!(sp.end == got, "span_from ends at position_after");
             kani::cover!(with_lc && s.len() >= 2 && s.as_bytes()[0] == b'\n' && s.as_bytes()[s.len() - 1] != b'\n', "newline inside, text after it");
             kani::cover!(with_lc && s.len() == $n && s.as_bytes()[$n - 1] == b'\n', "ends with newline");
-            kani::cover!(s.len() >= 2 && s.as_bytes()[0] >= 0x80, "multi-byte char");
+            kani::cover!(with_lc && s.len() >= 2 && s.as_bytes()[0] >= 0x80, "multi-byte char with line/column");
             kani::cover!(s.is_empty(), "empty string");
         }
     };
 }
+// tiny bound: stays tractable even if the code under test gets heavier (e.g. char-based
+// iteration) - one multi-byte char or a newline plus a byte is enough to expose a wrong law
+pos_after_law!(pos_after_law_2, 2, 4);
 pos_after_law!(pos_after_law_4, 4, 6);
 pos_after_law!(pos_after_law_6, 6, 8);
 pos_after_law!(pos_after_law_8, 8, 10);
@@ -87,6 +90,7 @@ macro_rules! pos_absolute {
         }
     };
 }
+pos_absolute!(pos_absolute_3, 3, 5);
 pos_absolute!(pos_absolute_4, 4, 6);
 pos_absolute!(pos_absolute_6, 6, 8);
 
